@@ -201,7 +201,7 @@ impl PoolEntry {
 		MethodDescriptor::try_from(pool.get_utf8(descriptor_index).context("while getting method type")?)
 	}
 
-	fn as_dynamic(&self, pool: &PoolRead, bootstrap_methods: &Option<Vec<BootstrapMethodRead>>, depth: usize) -> Result<ConstantDynamic> {
+	fn as_dynamic(&self, pool: &PoolRead, bootstrap_methods: &Option<Vec<BootstrapMethodRead>>, depth: usize, budget: &mut usize) -> Result<ConstantDynamic> {
 		let PoolEntry::Dynamic { bootstrap_method_attribute_index, name_and_type_index } = *self else {
 			bail!("pool entry not `Dynamic`: {self:?}");
 		};
@@ -218,7 +218,7 @@ impl PoolEntry {
 		let arguments = {
 			let mut vec = Vec::with_capacity(method.arguments.len());
 			for &argument in &method.arguments {
-				let value = pool.get_loadable_at_depth(argument, bootstrap_methods, depth + 1)
+				let value = pool.get_loadable_at_depth(argument, bootstrap_methods, depth + 1, budget)
 					.with_context(|| anyhow!("while argument for `Dynamic` at index {bootstrap_method_attribute_index:?}: {name:?} {descriptor:?} {handle:?}"))?;
 				vec.push(value); // TODO: recursion
 			}
@@ -243,9 +243,10 @@ impl PoolEntry {
 		};
 		let handle = method.handle.clone();
 		let arguments = {
+			let mut budget = PoolRead::MAX_BOOTSTRAP_ARGUMENT_CONSTANTS;
 			let mut vec = Vec::with_capacity(method.arguments.len());
 			for &argument in &method.arguments {
-				let value = pool.get_loadable_at_depth(argument, bootstrap_methods, 1)
+				let value = pool.get_loadable_at_depth(argument, bootstrap_methods, 1, &mut budget)
 					.with_context(|| anyhow!("while argument for `InvokeDynamic` at index {bootstrap_method_attribute_index:?}: {name:?} {descriptor:?} {handle:?}"))?;
 				vec.push(value); // TODO: recursion
 			}
@@ -255,7 +256,7 @@ impl PoolEntry {
 		Ok(InvokeDynamic { name, descriptor, handle, arguments })
 	}
 
-	fn as_loadable(&self, pool: &PoolRead, bootstrap_methods: &Option<Vec<BootstrapMethodRead>>, depth: usize) -> Result<Loadable> {
+	fn as_loadable(&self, pool: &PoolRead, bootstrap_methods: &Option<Vec<BootstrapMethodRead>>, depth: usize, budget: &mut usize) -> Result<Loadable> {
 		match self {
 			PoolEntry::Integer { .. } => Ok(Loadable::Integer(self.as_integer()?)),
 			PoolEntry::Float { .. } => Ok(Loadable::Float(self.as_float()?)),
@@ -265,7 +266,7 @@ impl PoolEntry {
 			PoolEntry::String { .. } => Ok(Loadable::String(self.as_string(pool)?)),
 			PoolEntry::MethodHandle { .. } => Ok(Loadable::MethodHandle(self.as_method_handle(pool)?)),
 			PoolEntry::MethodType { .. } => Ok(Loadable::MethodType(self.as_method_type(pool)?)),
-			PoolEntry::Dynamic { .. } => Ok(Loadable::Dynamic(self.as_dynamic(pool, bootstrap_methods, depth)?)),
+			PoolEntry::Dynamic { .. } => Ok(Loadable::Dynamic(self.as_dynamic(pool, bootstrap_methods, depth, budget)?)),
 			_ => bail!("pool entry is not loadable: {self:?}"),
 		}
 	}
@@ -507,7 +508,7 @@ impl PoolRead {
 	///
 	/// These are collected in the [`Loadable`] type.
 	pub(crate) fn get_loadable(&self, index: u16, bootstrap_methods: &Option<Vec<BootstrapMethodRead>>) -> Result<Loadable> {
-		self.get_loadable_at_depth(index, bootstrap_methods, 0)
+		self.get_loadable_at_depth(index, bootstrap_methods, 0, &mut { Self::MAX_BOOTSTRAP_ARGUMENT_CONSTANTS })
 	}
 
 	/// The maximal nesting depth of `Dynamic` constants used as bootstrap method arguments of other `Dynamic` constants.
@@ -516,11 +517,20 @@ impl PoolRead {
 	/// (directly or indirectly) its own argument would recurse forever.
 	const MAX_BOOTSTRAP_ARGUMENT_DEPTH: usize = 16;
 
-	fn get_loadable_at_depth(&self, index: u16, bootstrap_methods: &Option<Vec<BootstrapMethodRead>>, depth: usize) -> Result<Loadable> {
+	/// The maximal number of constants one resolved loadable constant may consist of: the constant itself, its bootstrap
+	/// method arguments, their arguments and so on.
+	///
+	/// `Dynamic` constants may share arguments, and resolving makes a copy for every use. Without a bound a pool of a few
+	/// hundred bytes describes a value of `arguments ^ depth` constants.
+	const MAX_BOOTSTRAP_ARGUMENT_CONSTANTS: usize = 1 << 16;
+
+	fn get_loadable_at_depth(&self, index: u16, bootstrap_methods: &Option<Vec<BootstrapMethodRead>>, depth: usize, budget: &mut usize) -> Result<Loadable> {
 		if depth > Self::MAX_BOOTSTRAP_ARGUMENT_DEPTH {
 			bail!("bootstrap method arguments are nested deeper than {} levels (pool index {index}): is a `Dynamic` constant its own argument?", Self::MAX_BOOTSTRAP_ARGUMENT_DEPTH);
 		}
-		self.get(index)?.as_loadable(self, bootstrap_methods, depth).pool_context(index)
+		*budget = budget.checked_sub(1)
+			.with_context(|| anyhow!("a constant with its bootstrap method arguments consists of more than {} constants (pool index {index})", Self::MAX_BOOTSTRAP_ARGUMENT_CONSTANTS))?;
+		self.get(index)?.as_loadable(self, bootstrap_methods, depth, budget).pool_context(index)
 	}
 
 	pub(crate) fn get_constant_value(&self, index: u16) -> Result<ConstantValue> {
